@@ -63,7 +63,7 @@ def _twin_worker(arg) -> tuple[int, list, list[str]]:
 
 
 def run_for(prop: str, mod, rep: Report) -> None:
-    r = rep.rule(f"{prop}.selftest", "checker tested both ways: silent on a behaviour-preserving re-emission of every source file and on 14 metamorphic rewrites of every function (renamed locals, inverted / nested / flattened conditionals, walrus in and out, De Morgan, return temporaries, guard clauses, conditional expressions vs statements, comprehensions vs loops, match vs if-chain, swapped comparisons, any() vs flag loop); fires on every seeded change kept for this property")
+    r = rep.rule(f"{prop}.selftest", "checker tested both ways: silent on a behaviour-preserving re-emission of every source file and on the metamorphic rewrites of every function of xsa/metamorph.py (renamed locals, inverted / nested / flattened conditionals, walrus in and out, De Morgan, return temporaries, guard clauses, conditional expressions vs statements, comprehensions vs loops, match vs if-chain, swapped comparisons, any() vs flag loop, compound conditions extracted into predicate helpers); fires on every seeded change kept for this property")
     base = _idents(rep)
     tmp = Path(tempfile.mkdtemp(prefix="xsa_selftest_"))
     try:
